@@ -50,6 +50,7 @@ func drawFoCfg(c *Case) foCfg {
 	cfg.updateTTL = []time.Duration{0, time.Second, time.Hour}[c.Pick("UpdateTTL", 3)]
 	cfg.logger = []int{2, 0, 1}[c.Pick("logger", 3)]
 	cfg.stats = c.Weighted("stats", 1, 1) == 1
+	cfg.observeMut = c.Weighted("ObserveMutability", 3, 1) == 1
 
 	return cfg
 }
